@@ -8,7 +8,11 @@ package grpchan
 
 import (
 	"github.com/fullstorydev/grpchan/internal"
+	"github.com/fullstorydev/grpchan/internal/verifhook"
 )
+
+// VerifSetHook installs the function called at every schedule point.
+var VerifSetHook = verifhook.Set
 
 type VerifCallOptions = internal.CallOptions
 type VerifUnaryServerTransportStream = internal.UnaryServerTransportStream
